@@ -76,6 +76,11 @@ func inner(r *rand.Rand, g *gen6.G, mt int) (*dhcpv6.Message, string) {
 		add(3, "N", 2) // a second IA_NA
 	}
 	add(25, "P", 2)
+	// identifiers are scoped per kind of identity association: the IA_PD may well carry the IAID of the IA_NA (clients that
+	// derive one IAID from the interface do exactly that)
+	if na, pd := m.Options.OneIANA(), m.Options.OneIAPD(); na != nil && pd != nil && r.IntN(3) == 0 {
+		pd.IaId = na.IaId
+	}
 	if r.IntN(2) == 0 {
 		m.AddOption(&dhcpv6.OptionGeneric{OptionCode: dhcpv6.OptionRapidCommit})
 		desc += "R"
@@ -107,6 +112,16 @@ func caseRelay(r *mon.Rec, idx int) {
 		innerTree := proj.M6(msg).String()
 		for k := depth - 1; k >= 0; k-- {
 			lv := level{link: g.Addr(), peer: g.Addr()}
+			if k < depth-1 && rng.IntN(4) == 0 {
+				// cascaded lightweight relay agents (RFC 6221): the same link-address (::) and the same peer-address (the
+				// client's link-local address) at several levels, told apart by their interface-ids only; or simply the
+				// same pair as the level inside
+				if rng.IntN(2) == 0 {
+					lv.link, lv.peer = levels[k+1].link, levels[k+1].peer
+				} else {
+					lv.link, lv.peer = net.IPv6unspecified, net.ParseIP("fe80::211:22ff:fe33:4455")
+				}
+			}
 			prev := cur
 			prevTree := proj.M6(prev).String()
 			rm, err := dhcpv6.EncapsulateRelay(cur, dhcpv6.MessageTypeRelayForward, lv.link, lv.peer)
